@@ -394,7 +394,7 @@ fn run_c26(ctx: &mut Ctx) {
         }
     }
     // (b) embedded Rust
-    let leaf: Vec<&str> = vec!["\"}\"", "\"\\\"\"", "r\"\\\"", "r#\"\"\"#", "'}'", "'\\''", "'\"'", "b'{'", "\"(\"", "'['", "1", "x", "/* , */", "// ;\n", "r#\"}\"#", "\"\\\\\""];
+    let leaf: Vec<&str> = vec!["\"}\"", "\"\\\"\"", "r\"\\\"", "r#\"\"\"#", "'}'", "'\\''", "'\"'", "b'{'", "\"(\"", "'['", "1", "x", "/* , */", "// ;\n", "r#\"}\"#", "\"\\\\\"", "\"a\n    b\"", "r\"x\n y\""];
     let n_atoms = if thorough { 3 } else { 2 };
     // sequences of leaves joined by commas, wrapped in each delimiter kind
     let mut seqs: Vec<Vec<&str>> = vec![vec![]];
